@@ -28,7 +28,8 @@ LEVEL_TEXT = ("Decided: every stored constraint type reaches an evaluator, none 
               "unused constraints are skipped.  Not decided: numerical correctness of each evaluator (constr_eval.h), "
               "the two-sided tolerance semantics on the boundary.  Noted, not flagged: linear and quadratic functional "
               "constraints use the base no-op violation evaluator (they are checked through their algebraic images "
-              "and through recomputation).")
+              "and through recomputation)."
+              "  Also decided (added after the seeded rounds): the point predicates (at a bound, nonzero, positive, bound violation) and the complementarity measure agree with their definitions on sample values.")
 LEVEL_NOTE = "Trusted: clang 14 front end/CFG, tool/mpx.cc, the rule module."
 DESIGN_REF = "DESIGN.md section 4, C07"
 EXPLANATION = "Unit: the visitor flat-converter unit (67 keepers).  See the module docstring."
